@@ -141,4 +141,11 @@ CHECKS = {
         "space is finite and enumerated (all positions thorough; all of the first spec + a third of the others quick).",
    note="Trusted base: the reference table REFS / PARAM_REFS in vf/props/c20.py. Numerical failures of the one evaluation are not lookup errors.",
    technique="runtime monitoring: single-mutation enumeration against the real validator with recorders on the issue/fill functions"),
+ "C18": dict(category="fault_enumeration",
+   text="The complete matrix save function x format (registered / inferred / unknown) x target state x allow_overwrite x (real plugin | plugin failing midway) is "
+        "executed on real files under a Python audit hook and byte+mtime snapshots (thorough: the refusal cells again in a child under strace -f, which also sees "
+        "netCDF's C-level writes); Project histories with prefix-sharing result names are replayed against a sequential model of run numbering, immutability of "
+        "earlier runs and latest-lookups. The matrix is finite, so it is enumerated; histories are sampled.",
+   note="Trusted base: sha256 / mtime snapshots, the audit hook's coverage of Python-level file operations, strace. mkdir of an existing directory is not a write.",
+   technique="runtime monitoring: OS-level observation (audit hook, strace, snapshots) over an exhaustive save matrix; history + executable model for the project registry"),
 }
